@@ -32,6 +32,9 @@ pub struct Case {
     pub faults: Vec<Fault>,
     pub chunk_r: Chunk,
     pub hash_seed: u64,
+    /// the file route goes through load_file_bytes (+ decode) instead of load_file
+    #[serde(default)]
+    pub via_bytes: bool,
 }
 
 pub const FILE: &str = "in.qplib";
@@ -176,7 +179,7 @@ impl C19 {
     fn base_case(&self, rng: &mut Rng) -> Case {
         let model = gen_model(rng);
         let layout = gen_layout(rng);
-        Case { model, layout, corrupt: None, truncate: None, entry: Entry::File, faults: vec![], chunk_r: Chunk::Whole, hash_seed: rng.next() }
+        Case { model, layout, corrupt: None, truncate: None, entry: Entry::File, faults: vec![], chunk_r: Chunk::Whole, hash_seed: rng.next(), via_bytes: false }
     }
 }
 
@@ -198,6 +201,7 @@ impl Prop for C19 {
         }
         let len = c.model.render(&c.layout, None).text.len() as u64;
         c.entry = if rng.chance(1, 4) { Entry::Reader } else { Entry::File };
+        c.via_bytes = c.entry == Entry::File && rng.chance(1, 4);
         let role = if c.entry == Entry::File { FILE } else { STREAM };
         let mode = rng.below(20);
         if mode >= 3 {
@@ -355,7 +359,12 @@ impl Prop for C19 {
         x.begin_op(99);
         std::fs::write(&path, &bytes).expect("harness: write input file to the sim disk");
         x.begin_op(0);
-        let res = x.sut(|| ommx::qplib::load_file(&path));
+        let res = if case.via_bytes {
+            // load_file_bytes is load_file followed by the encoding of the message: decoded again it must be the same
+            x.sut(|| ommx::qplib::load_file_bytes(&path).map(|b| <ommx::v1::Instance as prost::Message>::decode(&b[..]).expect("load_file_bytes returned bytes that are not an ommx.v1.Instance")))
+        } else {
+            x.sut(|| ommx::qplib::load_file(&path))
+        };
         let hard = x.hard_fired(0);
         let res = match res {
             Err(p) => {
@@ -507,7 +516,7 @@ impl Prop for C19 {
     }
 
     fn rule(&self) -> String {
-        "one run = (abstract QP with <=5 variables and <=4 constraints for a random type code from {L,D,C,Q}x{C,B,M,I,G}x{N,B,L,D,C,Q}: lower-triangle entries incl. diagonal, default and non-default b0, constant, infinity value with bounds at/above/below it, two-sided/one-sided sides, names, starting points; layout: trailing text, comment and blank lines, tab/blank separators, number styles, CRLF, trailing lines, word case; entry: qplib::load_file on the simulated disk or QplibFile::from_reader on a simulated stream; schedule: chunking; faults: EINTR, short reads, EIO at byte k / call j, open failure; truncation at byte k; one-token corruption of a type-code letter, a count or a number; an entry count replaced by one far beyond the file: 10^9, 10^12, 2^62, 2^64-1; a 1-based index replaced by 0). Enumerated part: truncation at every byte of N files; every one-token corruption (each type-code letter, count, number; each entry count replaced by each of four counts beyond the file; each 1-based index replaced by 0) of M files. distinct = distinct event-log hash; every run is non-trivial (>=1 variable)".into()
+        "one run = (abstract QP with <=5 variables and <=4 constraints for a random type code from {L,D,C,Q}x{C,B,M,I,G}x{N,B,L,D,C,Q}: lower-triangle entries incl. diagonal, default and non-default b0, constant, infinity value with bounds at/above/below it, two-sided/one-sided sides, names, starting points; layout: trailing text, comment and blank lines, tab/blank separators, number styles, CRLF, trailing lines, word case; entry: qplib::load_file / load_file_bytes (+ decode) on the simulated disk or QplibFile::from_reader on a simulated stream; schedule: chunking; faults: EINTR, short reads, EIO at byte k / call j, open failure; truncation at byte k; one-token corruption of a type-code letter, a count or a number; an entry count replaced by one far beyond the file: 10^9, 10^12, 2^62, 2^64-1; a 1-based index replaced by 0). Enumerated part: truncation at every byte of N files; every one-token corruption (each type-code letter, count, number; each entry count replaced by each of four counts beyond the file; each 1-based index replaced by 0) of M files. distinct = distinct event-log hash; every run is non-trivial (>=1 variable)".into()
     }
     fn assumptions(&self) -> Vec<String> {
         vec![
